@@ -229,7 +229,7 @@ func c09Random(c *Ctx, i int, r *gen.R) {
 	if r.Chance(1, 2) {
 		n = r.Range(1, 10)
 	}
-	fam := gen.FAscii | gen.FNewline | gen.FWide | gen.FCombining | gen.FZero | gen.FEmoji | gen.FInvalid | gen.FCSV | gen.FHTML | gen.FMD | gen.FCR | gen.FNUL
+	fam := gen.FAscii | gen.FNewline | gen.FWide | gen.FCombining | gen.FZero | gen.FEmoji | gen.FInvalid | gen.FCSV | gen.FHTML | gen.FMD | gen.FCR | gen.FNUL | gen.FSGR | gen.FEdge
 	var specs []gen.ItemSpec
 	b := &c09Builder{t: tabular.New()}
 	b.nextIt = func() interface{} {
